@@ -72,25 +72,75 @@ pub fn check(c: &Case) -> Result<Vec<&'static str>, Failure> {
         }
     };
     let plain = if use_color { strip_ansi(&shown) } else { shown.clone() };
+    // Layout-agnostic reading of the output (only line, column, the printed line and the caret column are specified):
+    //  * some line names the location: `file:LINE:COL`, or the numbers LINE and COL in this order;
+    //  * a caret line (one '^', otherwise only gutter characters) directly follows the line that shows the source line;
+    //  * with p = (index of '^') - (COL - 1): the shown line from p on is the source line (modulo trailing white space,
+    //    which the code trims), i.e. the caret stands under character COL of the printed line.
     let lines: Vec<&str> = plain.split('\n').collect();
-    // layout: message / "--> " location / " |  " / " |  " line / " |  " caret / ""
-    if lines.len() < 5 {
-        return Err(Failure::new("pretty error has fewer than five lines", want_loc, plain));
+    let is_gutter_char = |ch: char| ch == ' ' || ch == '|' || ch == ':' || ch == '-' || ch == '=' || ch == '>' || ch == '.' || ch.is_ascii_digit();
+    // (the last such line: the printed source line itself may look like a caret line)
+    let caret_idx = (1..lines.len()).rev().find(|i| lines[*i].matches('^').count() == 1 && lines[*i].chars().all(|ch| ch == '^' || is_gutter_char(ch)));
+    let ci = match caret_idx {
+        Some(i) => i,
+        None => return Err(Failure::new("pretty error has no caret line", want_loc, plain)),
+    };
+    let located = lines[..ci].iter().any(|l| match &c.file {
+        Some(f) => l.contains(&format!("{}:{}:{}", f, line, col)),
+        None => {
+            // LINE ... COL as separate integers, in this order
+            let nums: Vec<(usize, String)> = {
+                let mut v = vec![];
+                let mut cur = String::new();
+                let mut at = 0;
+                for (k, ch) in l.char_indices() {
+                    if ch.is_ascii_digit() {
+                        if cur.is_empty() {
+                            at = k;
+                        }
+                        cur.push(ch);
+                    } else if !cur.is_empty() {
+                        v.push((at, std::mem::take(&mut cur)));
+                    }
+                }
+                if !cur.is_empty() {
+                    v.push((at, cur));
+                }
+                v
+            };
+            nums.windows(2).any(|w| w[0].1 == line.to_string() && w[1].1 == col.to_string())
+        }
+    });
+    if !located {
+        return Err(Failure::new(format!("wrong location for position {} in {:?}", c.pos, c.text), want_loc, lines[..ci].join(" / ")));
     }
-    let loc = lines[1].strip_prefix("--> ").unwrap_or(lines[1]);
-    if loc != want_loc {
-        return Err(Failure::new(format!("wrong location for position {} in {:?}", c.pos, c.text), want_loc, loc.to_string()));
+    let caret_line: Vec<char> = lines[ci].chars().collect();
+    let caret_at = caret_line.iter().position(|ch| *ch == '^').unwrap();
+    if caret_at < col - 1 {
+        return Err(Failure::new(format!("caret not under column {} for position {} in {:?}", col, c.pos, c.text), format!("caret at index >= {}", col - 1), lines[ci].to_string()));
     }
-    let prefix = " |  ";
-    // the printed line may contain '\r' etc.; it is the 4th line up to the last but one
-    let printed = lines[3].strip_prefix(prefix).unwrap_or(lines[3]);
-    if printed.trim_end() != line_text.trim_end() {
-        return Err(Failure::new(format!("wrong line printed for position {} in {:?}", c.pos, c.text), line_text.to_string(), printed.to_string()));
+    let p = caret_at - (col - 1);
+    let shown_line: Vec<char> = lines[ci - 1].chars().collect();
+    let shown_text: String = if shown_line.len() >= p { shown_line[p..].iter().collect() } else { String::new() };
+    if shown_text.trim_end() != line_text.trim_end() || (shown_line.len() >= p && !shown_line[..p].iter().all(|ch| is_gutter_char(*ch))) {
+        // either the wrong line is printed or the caret is not under column `col` of it
+        let want_line = line_text.trim_end();
+        let printed_somewhere = shown_line.len() >= want_line.chars().count() && lines[ci - 1].trim_end().ends_with(want_line);
+        return Err(if printed_somewhere {
+            Failure::new(format!("caret not under column {} for position {} in {:?}", col, c.pos, c.text), format!("caret under character {} of the printed line", col), format!("{} / {}", lines[ci - 1], lines[ci]))
+        } else {
+            Failure::new(format!("wrong line printed for position {} in {:?}", c.pos, c.text), line_text.to_string(), lines[ci - 1].to_string())
+        });
     }
-    let caret_line = lines[4];
-    let want_caret = format!("{}{}^", prefix, " ".repeat(col - 1));
-    if caret_line != want_caret {
-        return Err(Failure::new(format!("caret not under column {} for position {} in {:?}", col, c.pos, c.text), want_caret, caret_line.to_string()));
+    if line_text.trim_end().is_empty() {
+        // nothing printed to align with: the gutter width must be the one the same layout uses for a one-character line
+        // with the same line number
+        let w = gutter_width(line, &c.file);
+        if let Some(w) = w {
+            if p != w {
+                return Err(Failure::new(format!("caret not under column {} for position {} in {:?}", col, c.pos, c.text), format!("caret at index {}", w + col - 1), lines[ci].to_string()));
+            }
+        }
     }
     let mut classes = vec![];
     if c.text.is_empty() {
@@ -119,6 +169,29 @@ pub fn check(c: &Case) -> Result<Vec<&'static str>, Failure> {
         classes.push("odd_first_character");
     }
     Ok(classes)
+}
+
+thread_local! {
+    static GUTTER: std::cell::RefCell<std::collections::HashMap<(usize, bool), Option<usize>>> = std::cell::RefCell::new(Default::default());
+}
+/// index at which the layout starts the source text for line number `line` (calibrated with the text "\n"*(line-1) + "x")
+fn gutter_width(line: usize, file: &Option<String>) -> Option<usize> {
+    let key = (line, file.is_some());
+    if let Some(v) = GUTTER.with(|g| g.borrow().get(&key).cloned()) {
+        return v;
+    }
+    let text = format!("{}x", "\n".repeat(line - 1));
+    let err = ParseError { position: text.len() - 1, specifics: ParseErrorSpecifics::ExpectedEoi };
+    let f = file.clone();
+    let r = std::panic::catch_unwind(move || format!("{}", PrettyParseError::from_parse_error(&err, &text, f.as_deref()))).ok();
+    let v = r.and_then(|out| {
+        let out = strip_ansi(&out);
+        let ls: Vec<&str> = out.split('\n').collect();
+        let ci = (1..ls.len()).rev().find(|i| ls[*i].matches('^').count() == 1)?;
+        ls[ci].chars().position(|ch| ch == '^')
+    });
+    GUTTER.with(|g| g.borrow_mut().insert(key, v));
+    v
 }
 
 const FRAGS: &[&str] = &["a", "ab", "é", "🙂x", " ", "\t", "", "foo bar", "x = 'y';", "ж→☃", "   ", "0123456789", "@export A = b:B;", "\r", "\u{2028}"];
